@@ -314,7 +314,7 @@ pub fn run(cfg: &RunCfg) -> PropResult {
         r.add(idx, run_case(seed, idx));
         r
     } else {
-        let n = if cfg.thorough { 4_000_000 } else { 60_000 };
+        let n = if cfg.thorough { 40_000_000 } else { 1_000_000 };
         run_parallel(n, workers(), |i| run_case(cfg.seed, i))
     };
     PropResult {
